@@ -87,8 +87,8 @@ macro_rules! ob {
         $obs(&t)
     }};
 }
-/// Owned / borrowed / assign forms of a binary operator against the ref-ref form; the operands are rebuilt
-/// from the same words for every form (A, B are expressions) and every result is observed once.
+/// All owned / borrowed / assign forms of a binary operator against the ref-ref form; the operands are
+/// rebuilt from the same words for every form (A, B are expressions) and every result is observed once.
 macro_rules! forms_val {
     ($obs:ident, $A:expr, $B:expr, $op:tt) => {{
         let r = ob!($obs, &$A $op &$B);
@@ -99,6 +99,18 @@ macro_rules! forms_val {
 }
 macro_rules! forms_assign {
     ($obs:ident, $A:expr, $B:expr, $op:tt, $opa:tt) => {{
+        let r = ob!($obs, &$A $op &$B);
+        let mut x = $A;
+        x $opa $B;
+        assert!(same(ob!($obs, x), r));
+        let mut y = $A;
+        y $opa &$B;
+        assert!(same(ob!($obs, y), r));
+    }};
+}
+macro_rules! forms_all {
+    ($obs:ident, $A:expr, $B:expr, $op:tt, $opa:tt) => {{
+        forms_val!($obs, $A, $B, $op);
         let r = ob!($obs, &$A $op &$B);
         let mut x = $A;
         x $opa $B;
@@ -138,38 +150,525 @@ macro_rules! harness_panics {
     };
 }
 
-// ---------------------------------------------------------------- probes
-macro_rules! forms_all {
-    ($obs:ident, $A:expr, $B:expr, $op:tt, $opa:tt) => {{
-        let r = ob!($obs, &$A $op &$B);
-        assert!(same(ob!($obs, $A $op $B), r));
-        assert!(same(ob!($obs, $A $op &$B), r));
-        assert!(same(ob!($obs, &$A $op $B), r));
-        let mut x = $A;
-        x $opa $B;
-        assert!(same(ob!($obs, x), r));
-        let mut y = $A;
-        y $opa &$B;
-        assert!(same(ob!($obs, y), r));
+/// full-width symbolic words / palette words (for * / %: few symbolic bits per word)
+fn full3() -> [Word; 3] {
+    any()
+}
+fn pal() -> Word {
+    match any::<u8>() & 3 {
+        0 => 0,
+        1 => 1,
+        2 => 1 << 63,
+        _ => Word::MAX,
+    }
+}
+fn pal3() -> [Word; 3] {
+    [pal(), pal(), pal()]
+}
+/// value order of two 3-word numbers (absent words must be zero)
+fn ge3(a: &[Word; 3], b: &[Word; 3]) -> bool {
+    a[2] > b[2] || (a[2] == b[2] && (a[1] > b[1] || (a[1] == b[1] && a[0] >= b[0])))
+}
+/// the words of an operand of class c (words above the class are zero)
+fn cls(c: usize, w: [Word; 3]) -> [Word; 3] {
+    [w[0], if c >= 2 { w[1] } else { 0 }, if c >= 3 { w[2] } else { 0 }]
+}
+
+/// Sign dispatch for IBig operands: inline classes get a CONCRETE sign (one call per sign), heap classes a
+/// symbolic one (|capacity| of an inline value with symbolic sign is not a constant for CBMC).
+macro_rules! with_signs {
+    ($f:ident, $ca:expr, $cb:expr) => {{
+        let (na, nb): (bool, bool) = (any(), any());
+        if $ca <= 2 && $cb <= 2 {
+            match (na, nb) {
+                (false, false) => $f($ca, false, $cb, false),
+                (false, true) => $f($ca, false, $cb, true),
+                (true, false) => $f($ca, true, $cb, false),
+                (true, true) => $f($ca, true, $cb, true),
+            }
+        } else if $ca <= 2 {
+            if na {
+                $f($ca, true, $cb, nb)
+            } else {
+                $f($ca, false, $cb, nb)
+            }
+        } else if $cb <= 2 {
+            if nb {
+                $f($ca, na, $cb, true)
+            } else {
+                $f($ca, na, $cb, false)
+            }
+        } else {
+            $f($ca, na, $cb, nb)
+        }
     }};
 }
-harness!(vk_int_forms_probe_a, 7, {
-    let wa: [Word; 3] = any();
-    let wb: [Word; 3] = any();
-    forms_all!(obs_u, ubig_w(2, &wa), ubig_w(2, &wb), +, +=);
+macro_rules! with_sign {
+    ($f:ident, $ca:expr) => {{
+        let na: bool = any();
+        if $ca > 2 {
+            $f($ca, na)
+        } else if na {
+            $f($ca, true)
+        } else {
+            $f($ca, false)
+        }
+    }};
+}
+
+// ================================================================ UBig: + - & | ^ (full-width words)
+macro_rules! ubig_binop {
+    ($op:tt, $opa:tt; $($name:ident = ($ca:expr, $cb:expr, $which:ident)),* $(,)?) => {$(
+        harness!($name, 8, {
+            let (wa, wb) = (full3(), full3());
+            $which!(obs_u, ubig_w($ca, &wa), ubig_w($cb, &wb), $op, $opa);
+        });
+    )*};
+}
+macro_rules! fv {
+    ($obs:ident, $A:expr, $B:expr, $op:tt, $opa:tt) => {
+        forms_val!($obs, $A, $B, $op)
+    };
+}
+ubig_binop!(+, +=; vk_int_forms_ubig_add_1_1 = (1, 1, forms_all), vk_int_forms_ubig_add_2_2_val = (2, 2, fv),
+    vk_int_forms_ubig_add_2_2_assign = (2, 2, forms_assign), vk_int_forms_ubig_add_3_2 = (3, 2, forms_all),
+    vk_int_forms_ubig_add_1_3 = (1, 3, forms_all), vk_int_forms_ubig_add_3_3 = (3, 3, forms_all));
+ubig_binop!(&, &=; vk_int_forms_ubig_and_2_2_val = (2, 2, fv), vk_int_forms_ubig_and_2_2_assign = (2, 2, forms_assign),
+    vk_int_forms_ubig_and_3_2 = (3, 2, forms_all), vk_int_forms_ubig_and_3_3 = (3, 3, forms_all));
+ubig_binop!(|, |=; vk_int_forms_ubig_or_2_2_val = (2, 2, fv), vk_int_forms_ubig_or_2_2_assign = (2, 2, forms_assign),
+    vk_int_forms_ubig_or_2_3 = (2, 3, forms_all), vk_int_forms_ubig_or_3_3 = (3, 3, forms_all));
+ubig_binop!(^, ^=; vk_int_forms_ubig_xor_2_2_val = (2, 2, fv), vk_int_forms_ubig_xor_2_2_assign = (2, 2, forms_assign),
+    vk_int_forms_ubig_xor_3_2 = (3, 2, forms_all), vk_int_forms_ubig_xor_3_3 = (3, 3, forms_all));
+
+// subtraction: minuend >= subtrahend (the other region: vk_int_forms_ubig_sub_below_zero_panics)
+macro_rules! ubig_sub {
+    ($($name:ident = ($ca:expr, $cb:expr, $which:ident)),* $(,)?) => {$(
+        harness!($name, 8, {
+            let (wa, wb) = (full3(), full3());
+            assume(ge3(&cls($ca, wa), &cls($cb, wb)));
+            $which!(obs_u, ubig_w($ca, &wa), ubig_w($cb, &wb), -, -=);
+        });
+    )*};
+}
+ubig_sub!(vk_int_forms_ubig_sub_1_1 = (1, 1, forms_all), vk_int_forms_ubig_sub_2_2_val = (2, 2, fv),
+    vk_int_forms_ubig_sub_2_2_assign = (2, 2, forms_assign), vk_int_forms_ubig_sub_3_2 = (3, 2, forms_all),
+    vk_int_forms_ubig_sub_3_3 = (3, 3, forms_all));
+
+// unsigned subtraction below zero: EVERY form panics (k selects the form; must_not_return after it)
+harness_panics!(vk_int_forms_ubig_sub_below_zero_panics, 8, {
+    let (wa, wb) = (full3(), full3());
+    let k: u8 = any();
+    // a has one word, b has one or two: a < b
+    let cb = if any::<bool>() { 2 } else { 1 };
+    assume(!ge3(&cls(1, wa), &cls(cb, wb)));
+    let (a, b) = (ubig_w(1, &wa), ubig_w(cb, &wb));
+    match k {
+        0 => {
+            let _ = a - b;
+        }
+        1 => {
+            let _ = a - &b;
+        }
+        2 => {
+            let _ = &a - b;
+        }
+        3 => {
+            let _ = &a - &b;
+        }
+        4 => {
+            let mut x = a;
+            x -= b;
+        }
+        _ => {
+            let mut x = a;
+            x -= &b;
+        }
+    }
 });
-harness!(vk_int_forms_probe_b, 7, {
-    let wa: [Word; 3] = any();
-    let wb: [Word; 3] = any();
-    forms_all!(obs_u, ubig_w(3, &wa), ubig_w(2, &wb), +, +=);
+// the same with a primitive operand on either side
+harness_panics!(vk_int_forms_ubig_sub_prim_below_zero_panics, 8, {
+    let wa = full3();
+    let p: u8 = any();
+    let k: u8 = any();
+    assume(wa[0] < p as Word);
+    let a = ubig_w(1, &wa);
+    match k {
+        0 => {
+            let _ = a - p;
+        }
+        1 => {
+            let _ = &a - p;
+        }
+        2 => {
+            let mut x = a;
+            x -= p;
+        }
+        _ => {
+            // primitive minuend: p - (p + 1 + a)
+            let _ = p - (a + p + 1u8);
+        }
+    }
 });
-harness!(vk_int_forms_probe_c, 7, {
-    let wa: [Word; 3] = any();
-    let wb: [Word; 3] = any();
-    forms_all!(obs_u, ubig_w(1, &wa), ubig_w(1, &wb), +, +=);
+
+// ================================================================ UBig: << >> (shift < 130)
+macro_rules! ubig_shift {
+    ($op:tt, $opa:tt; $($name:ident = $ca:expr),* $(,)?) => {$(
+        harness!($name, 8, {
+            let wa = full3();
+            let n: usize = any();
+            assume(n < 130);
+            let r = ob!(obs_u, &ubig_w($ca, &wa) $op n);
+            assert!(same(ob!(obs_u, ubig_w($ca, &wa) $op n), r));
+            assert!(same(ob!(obs_u, ubig_w($ca, &wa) $op &n), r));
+            assert!(same(ob!(obs_u, &ubig_w($ca, &wa) $op &n), r));
+            let mut x = ubig_w($ca, &wa);
+            x $opa n;
+            assert!(same(ob!(obs_u, x), r));
+            let mut y = ubig_w($ca, &wa);
+            y $opa &n;
+            assert!(same(ob!(obs_u, y), r));
+        });
+    )*};
+}
+ubig_shift!(<<, <<=; vk_int_forms_ubig_shl_1 = 1, vk_int_forms_ubig_shl_2 = 2, vk_int_forms_ubig_shl_3 = 3);
+ubig_shift!(>>, >>=; vk_int_forms_ubig_shr_1 = 1, vk_int_forms_ubig_shr_2 = 2, vk_int_forms_ubig_shr_3 = 3);
+
+// ================================================================ UBig: * / % div_rem (palette words)
+macro_rules! ubig_mul {
+    ($($name:ident = ($ca:expr, $cb:expr, $which:ident)),* $(,)?) => {$(
+        harness!($name, 8, {
+            let (wa, wb) = (pal3(), pal3());
+            $which!(obs_u, ubig_w($ca, &wa), ubig_w($cb, &wb), *, *=);
+        });
+    )*};
+}
+ubig_mul!(vk_int_forms_ubig_mul_1_1 = (1, 1, forms_all), vk_int_forms_ubig_mul_2_2_val = (2, 2, fv),
+    vk_int_forms_ubig_mul_2_2_assign = (2, 2, forms_assign), vk_int_forms_ubig_mul_3_2 = (3, 2, forms_all),
+    vk_int_forms_ubig_mul_3_3 = (3, 3, forms_all));
+
+macro_rules! ubig_div {
+    ($op:tt, $opa:tt; $($name:ident = ($ca:expr, $cb:expr, $which:ident)),* $(,)?) => {$(
+        harness!($name, 8, {
+            let (wa, wb) = (pal3(), pal3());
+            assume($cb > 1 || wb[0] != 0); // divisor != 0 (the other region: vk_int_forms_ubig_div_zero_panics)
+            $which!(obs_u, ubig_w($ca, &wa), ubig_w($cb, &wb), $op, $opa);
+        });
+    )*};
+}
+ubig_div!(/, /=; vk_int_forms_ubig_div_2_1 = (2, 1, forms_all), vk_int_forms_ubig_div_2_2_val = (2, 2, fv),
+    vk_int_forms_ubig_div_2_2_assign = (2, 2, forms_assign), vk_int_forms_ubig_div_3_1 = (3, 1, forms_all),
+    vk_int_forms_ubig_div_3_2 = (3, 2, forms_all), vk_int_forms_ubig_div_3_3 = (3, 3, forms_all));
+ubig_div!(%, %=; vk_int_forms_ubig_rem_2_1 = (2, 1, forms_all), vk_int_forms_ubig_rem_2_2_val = (2, 2, fv),
+    vk_int_forms_ubig_rem_2_2_assign = (2, 2, forms_assign), vk_int_forms_ubig_rem_3_1 = (3, 1, forms_all),
+    vk_int_forms_ubig_rem_3_2 = (3, 2, forms_all), vk_int_forms_ubig_rem_3_3 = (3, 3, forms_all));
+
+// div_rem in every form == (/, %); div_rem_assign leaves the quotient and returns the remainder
+macro_rules! ubig_div_rem {
+    ($($name:ident = ($ca:expr, $cb:expr)),* $(,)?) => {$(
+        harness!($name, 8, {
+            let (wa, wb) = (pal3(), pal3());
+            assume($cb > 1 || wb[0] != 0);
+            let q = ob!(obs_u, &ubig_w($ca, &wa) / &ubig_w($cb, &wb));
+            let r = ob!(obs_u, &ubig_w($ca, &wa) % &ubig_w($cb, &wb));
+            let k: u8 = any();
+            let (q1, r1) = match k {
+                0 => (&ubig_w($ca, &wa)).div_rem(&ubig_w($cb, &wb)),
+                1 => ubig_w($ca, &wa).div_rem(ubig_w($cb, &wb)),
+                2 => ubig_w($ca, &wa).div_rem(&ubig_w($cb, &wb)),
+                3 => (&ubig_w($ca, &wa)).div_rem(ubig_w($cb, &wb)),
+                4 => {
+                    let mut x = ubig_w($ca, &wa);
+                    let r = x.div_rem_assign(ubig_w($cb, &wb));
+                    (x, r)
+                }
+                _ => {
+                    let mut x = ubig_w($ca, &wa);
+                    let r = x.div_rem_assign(&ubig_w($cb, &wb));
+                    (x, r)
+                }
+            };
+            assert!(same(ob!(obs_u, q1), q));
+            assert!(same(ob!(obs_u, r1), r));
+        });
+    )*};
+}
+ubig_div_rem!(vk_int_forms_ubig_div_rem_2_1 = (2, 1), vk_int_forms_ubig_div_rem_2_2 = (2, 2),
+    vk_int_forms_ubig_div_rem_3_2 = (3, 2), vk_int_forms_ubig_div_rem_3_3 = (3, 3));
+
+// division by zero: EVERY form of / % div_rem panics
+harness_panics!(vk_int_forms_ubig_div_zero_panics, 8, {
+    let wa = pal3();
+    let k: u8 = any();
+    let ca = if any::<bool>() { 3 } else { 1 };
+    let a = ubig_w(ca, &wa);
+    let z = ubig_w(1, &[0, 0, 0]);
+    match k {
+        0 => {
+            let _ = a / z;
+        }
+        1 => {
+            let _ = a / &z;
+        }
+        2 => {
+            let _ = &a / z;
+        }
+        3 => {
+            let _ = &a / &z;
+        }
+        4 => {
+            let mut x = a;
+            x /= z;
+        }
+        5 => {
+            let _ = a % z;
+        }
+        6 => {
+            let _ = a % &z;
+        }
+        7 => {
+            let _ = &a % z;
+        }
+        8 => {
+            let _ = &a % &z;
+        }
+        9 => {
+            let mut x = a;
+            x %= &z;
+        }
+        10 => {
+            let _ = a.div_rem(z);
+        }
+        11 => {
+            let _ = (&a).div_rem(&z);
+        }
+        12 => {
+            let mut x = a;
+            let _ = x.div_rem_assign(z);
+        }
+        13 => {
+            let _ = a / 0u8;
+        }
+        14 => {
+            let _ = &a % 0u64;
+        }
+        _ => {
+            let _ = a.div_rem(0u8);
+        }
+    }
 });
-harness!(vk_int_forms_probe_d, 7, {
-    let wa: [Word; 3] = any();
-    let wb: [Word; 3] = any();
-    forms_all!(obs_u, ubig_w(3, &wa), ubig_w(3, &wb), +, +=);
+
+// ================================================================ UBig with a primitive operand == the UBig form
+macro_rules! ubig_prim {
+    ($t:ty, $op:tt, $opa:tt, $words:ident, $pre:expr; $($name:ident = $ca:expr),* $(,)?) => {$(
+        harness!($name, 8, {
+            let wa = $words();
+            let p: $t = any();
+            let pre: fn(&[Word; 3], $t) -> bool = $pre;
+            assume(pre(&cls($ca, wa), p));
+            let r = ob!(obs_u, &ubig_w($ca, &wa) $op &UBig::from(p));
+            assert!(same(ob!(obs_u, ubig_w($ca, &wa) $op p), r));
+            assert!(same(ob!(obs_u, &ubig_w($ca, &wa) $op p), r));
+            assert!(same(ob!(obs_u, ubig_w($ca, &wa) $op &p), r));
+            assert!(same(ob!(obs_u, &ubig_w($ca, &wa) $op &p), r));
+            let mut x = ubig_w($ca, &wa);
+            x $opa p;
+            assert!(same(ob!(obs_u, x), r));
+            let mut y = ubig_w($ca, &wa);
+            y $opa &p;
+            assert!(same(ob!(obs_u, y), r));
+        });
+    )*};
+}
+ubig_prim!(u8, +, +=, full3, |_, _| true; vk_int_forms_ubig_add_u8_2 = 2, vk_int_forms_ubig_add_u8_3 = 3);
+ubig_prim!(u64, +, +=, full3, |_, _| true; vk_int_forms_ubig_add_u64_1 = 1);
+ubig_prim!(u8, -, -=, full3, |w, p| w[1] != 0 || w[2] != 0 || w[0] >= p as Word; vk_int_forms_ubig_sub_u8_1 = 1,
+    vk_int_forms_ubig_sub_u8_3 = 3);
+ubig_prim!(u64, *, *=, pal3, |_, _| true; vk_int_forms_ubig_mul_u64_2 = 2);
+ubig_prim!(u8, /, /=, pal3, |_, p| p != 0; vk_int_forms_ubig_div_u8_2 = 2, vk_int_forms_ubig_div_u8_3 = 3);
+ubig_prim!(u8, |, |=, full3, |_, _| true; vk_int_forms_ubig_or_u8_2 = 2);
+
+// commuted primitive forms (primitive on the left) and the forms that return a primitive (% and &)
+harness!(vk_int_forms_ubig_prim_left_2, 8, {
+    let wa = full3();
+    let p: u8 = any();
+    let r = ob!(obs_u, &UBig::from(p) + &ubig_w(2, &wa));
+    assert!(same(ob!(obs_u, p + ubig_w(2, &wa)), r));
+    assert!(same(ob!(obs_u, p + &ubig_w(2, &wa)), r));
+    assert!(same(ob!(obs_u, &p + ubig_w(2, &wa)), r));
+    assert!(same(ob!(obs_u, &p + &ubig_w(2, &wa)), r));
+    let x = ob!(obs_u, &UBig::from(p) ^ &ubig_w(2, &wa));
+    assert!(same(ob!(obs_u, p ^ ubig_w(2, &wa)), x));
+    assert!(same(ob!(obs_u, &p ^ &ubig_w(2, &wa)), x));
+});
+macro_rules! ubig_rem_prim {
+    ($($name:ident = $ca:expr),* $(,)?) => {$(
+        harness!($name, 8, {
+            let wa = pal3();
+            let p: u8 = any();
+            assume(p != 0);
+            let r = ob!(obs_u, &ubig_w($ca, &wa) % &UBig::from(p));
+            let q = ob!(obs_u, &ubig_w($ca, &wa) / &UBig::from(p));
+            let r1: u8 = ubig_w($ca, &wa) % p;
+            let r2: u8 = &ubig_w($ca, &wa) % p;
+            let r3: u8 = &ubig_w($ca, &wa) % &p;
+            assert!(r1 == r2 && r2 == r3);
+            assert!(same(ob!(obs_u, UBig::from(r1)), r));
+            let (q4, r4) = ubig_w($ca, &wa).div_rem(p);
+            assert!(r4 == r1 && same(ob!(obs_u, q4), q));
+            let (q5, r5) = (&ubig_w($ca, &wa)).div_rem(&p);
+            assert!(r5 == r1 && same(ob!(obs_u, q5), q));
+            let mut x = ubig_w($ca, &wa);
+            let r6: u8 = x.div_rem_assign(p);
+            assert!(r6 == r1 && same(ob!(obs_u, x), q));
+            // & with a primitive returns the primitive
+            let m = ob!(obs_u, &ubig_w($ca, &wa) & &UBig::from(p));
+            let m1: u8 = ubig_w($ca, &wa) & p;
+            let m2: u8 = p & &ubig_w($ca, &wa);
+            assert!(m1 == m2 && same(ob!(obs_u, UBig::from(m1)), m));
+        });
+    )*};
+}
+ubig_rem_prim!(vk_int_forms_ubig_rem_u8_2 = 2, vk_int_forms_ubig_rem_u8_3 = 3);
+
+// ================================================================ IBig
+macro_rules! ibig_binop {
+    ($op:tt, $opa:tt, $words:ident, $pre:expr; $($name:ident = ($ca:expr, $cb:expr, $which:ident)),* $(,)?) => {$(
+        harness!($name, 8, {
+            fn body(ca: usize, na: bool, cb: usize, nb: bool) {
+                let (wa, wb) = ($words(), $words());
+                let pre: fn(usize, &[Word; 3]) -> bool = $pre;
+                assume(pre(cb, &wb));
+                $which!(obs_i, ibig_w(ca, na, &wa), ibig_w(cb, nb, &wb), $op, $opa);
+            }
+            with_signs!(body, $ca, $cb);
+        });
+    )*};
+}
+ibig_binop!(+, +=, full3, |_, _| true; vk_int_forms_ibig_add_1_1 = (1, 1, forms_all), vk_int_forms_ibig_add_2_2_val = (2, 2, fv),
+    vk_int_forms_ibig_add_3_2 = (3, 2, forms_all), vk_int_forms_ibig_add_3_3 = (3, 3, forms_all));
+ibig_binop!(-, -=, full3, |_, _| true; vk_int_forms_ibig_sub_1_1 = (1, 1, forms_all), vk_int_forms_ibig_sub_2_2_val = (2, 2, fv),
+    vk_int_forms_ibig_sub_2_3 = (2, 3, forms_all), vk_int_forms_ibig_sub_3_3 = (3, 3, forms_all));
+ibig_binop!(&, &=, full3, |_, _| true; vk_int_forms_ibig_and_1_1 = (1, 1, forms_all), vk_int_forms_ibig_and_3_3 = (3, 3, forms_all));
+ibig_binop!(|, |=, full3, |_, _| true; vk_int_forms_ibig_or_1_1 = (1, 1, forms_all), vk_int_forms_ibig_or_3_3 = (3, 3, forms_all));
+ibig_binop!(^, ^=, full3, |_, _| true; vk_int_forms_ibig_xor_1_1 = (1, 1, forms_all), vk_int_forms_ibig_xor_3_3 = (3, 3, forms_all));
+ibig_binop!(*, *=, pal3, |_, _| true; vk_int_forms_ibig_mul_1_1 = (1, 1, forms_all), vk_int_forms_ibig_mul_3_2 = (3, 2, forms_all));
+ibig_binop!(/, /=, pal3, |c, w| c > 1 || w[0] != 0; vk_int_forms_ibig_div_2_1 = (2, 1, forms_all),
+    vk_int_forms_ibig_div_3_2 = (3, 2, forms_all));
+ibig_binop!(%, %=, pal3, |c, w| c > 1 || w[0] != 0; vk_int_forms_ibig_rem_2_1 = (2, 1, forms_all),
+    vk_int_forms_ibig_rem_3_2 = (3, 2, forms_all));
+
+macro_rules! ibig_div_rem {
+    ($($name:ident = ($ca:expr, $cb:expr)),* $(,)?) => {$(
+        harness!($name, 8, {
+            fn body(ca: usize, na: bool, cb: usize, nb: bool) {
+                let (wa, wb) = (pal3(), pal3());
+                assume(cb > 1 || wb[0] != 0);
+                let q = ob!(obs_i, &ibig_w(ca, na, &wa) / &ibig_w(cb, nb, &wb));
+                let r = ob!(obs_i, &ibig_w(ca, na, &wa) % &ibig_w(cb, nb, &wb));
+                let k: u8 = any();
+                let (q1, r1) = match k {
+                    0 => (&ibig_w(ca, na, &wa)).div_rem(&ibig_w(cb, nb, &wb)),
+                    1 => ibig_w(ca, na, &wa).div_rem(ibig_w(cb, nb, &wb)),
+                    2 => ibig_w(ca, na, &wa).div_rem(&ibig_w(cb, nb, &wb)),
+                    3 => (&ibig_w(ca, na, &wa)).div_rem(ibig_w(cb, nb, &wb)),
+                    _ => {
+                        let mut x = ibig_w(ca, na, &wa);
+                        let r = x.div_rem_assign(&ibig_w(cb, nb, &wb));
+                        (x, r)
+                    }
+                };
+                assert!(same(ob!(obs_i, q1), q));
+                assert!(same(ob!(obs_i, r1), r));
+            }
+            with_signs!(body, $ca, $cb);
+        });
+    )*};
+}
+ibig_div_rem!(vk_int_forms_ibig_div_rem_2_1 = (2, 1), vk_int_forms_ibig_div_rem_3_2 = (3, 2));
+
+macro_rules! ibig_shift {
+    ($op:tt, $opa:tt; $($name:ident = $ca:expr),* $(,)?) => {$(
+        harness!($name, 8, {
+            fn body(ca: usize, na: bool) {
+                let wa = full3();
+                let n: usize = any();
+                assume(n < 130);
+                let r = ob!(obs_i, &ibig_w(ca, na, &wa) $op n);
+                assert!(same(ob!(obs_i, ibig_w(ca, na, &wa) $op n), r));
+                assert!(same(ob!(obs_i, ibig_w(ca, na, &wa) $op &n), r));
+                assert!(same(ob!(obs_i, &ibig_w(ca, na, &wa) $op &n), r));
+                let mut x = ibig_w(ca, na, &wa);
+                x $opa n;
+                assert!(same(ob!(obs_i, x), r));
+                let mut y = ibig_w(ca, na, &wa);
+                y $opa &n;
+                assert!(same(ob!(obs_i, y), r));
+            }
+            with_sign!(body, $ca);
+        });
+    )*};
+}
+ibig_shift!(<<, <<=; vk_int_forms_ibig_shl_1 = 1, vk_int_forms_ibig_shl_3 = 3);
+ibig_shift!(>>, >>=; vk_int_forms_ibig_shr_1 = 1, vk_int_forms_ibig_shr_2 = 2, vk_int_forms_ibig_shr_3 = 3);
+
+// IBig with a (signed / unsigned) primitive operand == the IBig form
+macro_rules! ibig_prim {
+    ($t:ty, $op:tt, $opa:tt, $words:ident, $pre:expr; $($name:ident = $ca:expr),* $(,)?) => {$(
+        harness!($name, 8, {
+            fn body(ca: usize, na: bool) {
+                let wa = $words();
+                let p: $t = any();
+                let pre: fn($t) -> bool = $pre;
+                assume(pre(p));
+                let r = ob!(obs_i, &ibig_w(ca, na, &wa) $op &IBig::from(p));
+                assert!(same(ob!(obs_i, ibig_w(ca, na, &wa) $op p), r));
+                assert!(same(ob!(obs_i, &ibig_w(ca, na, &wa) $op p), r));
+                assert!(same(ob!(obs_i, &ibig_w(ca, na, &wa) $op &p), r));
+                let mut x = ibig_w(ca, na, &wa);
+                x $opa p;
+                assert!(same(ob!(obs_i, x), r));
+            }
+            with_sign!(body, $ca);
+        });
+    )*};
+}
+ibig_prim!(i8, +, +=, full3, |_| true; vk_int_forms_ibig_add_i8_1 = 1, vk_int_forms_ibig_add_i8_3 = 3);
+ibig_prim!(u8, -, -=, full3, |_| true; vk_int_forms_ibig_sub_u8_1 = 1);
+ibig_prim!(i64, *, *=, pal3, |_| true; vk_int_forms_ibig_mul_i64_1 = 1);
+ibig_prim!(i8, /, /=, pal3, |p| p != 0; vk_int_forms_ibig_div_i8_2 = 2);
+
+// `IBig % primitive` returns the primitive.  Signed primitive: any dividend; unsigned primitive: the main harness
+// stays on non-negative dividends (the other region is vk_int_forms_finding_ibig_rem_u8_negative).
+harness!(vk_int_forms_ibig_rem_i8, 8, {
+    fn body(ca: usize, na: bool) {
+        let wa = pal3();
+        let p: i8 = any();
+        assume(p != 0);
+        let r = ob!(obs_i, &ibig_w(ca, na, &wa) % &IBig::from(p));
+        let r1: i8 = ibig_w(ca, na, &wa) % p;
+        let r2: i8 = &ibig_w(ca, na, &wa) % &p;
+        assert!(r1 == r2 && same(ob!(obs_i, IBig::from(r1)), r));
+        let (_q3, r3) = ibig_w(ca, na, &wa).div_rem(p);
+        assert!(r3 == r1);
+    }
+    with_sign!(body, 2);
+});
+harness!(vk_int_forms_ibig_rem_u8_nonneg, 8, {
+    let wa = pal3();
+    let p: u8 = any();
+    assume(p != 0);
+    let r = ob!(obs_i, &ibig_w(2, false, &wa) % &IBig::from(p));
+    let r1: u8 = ibig_w(2, false, &wa) % p;
+    let r2: u8 = &ibig_w(2, false, &wa) % &p;
+    assert!(r1 == r2 && same(ob!(obs_i, IBig::from(r1)), r));
+    let (_q3, r3) = ibig_w(2, false, &wa).div_rem(p);
+    assert!(r3 == r1);
+});
+// FINDING: "IBig % u8 does not panic for a non-zero divisor" fails for negative dividends whose remainder is
+// non-zero: the macro converts the (negative) IBig remainder with `.try_into().unwrap()`.
+harness!(vk_int_forms_finding_ibig_rem_u8_negative, 8, {
+    let wa = pal3();
+    let p: u8 = any();
+    assume(p != 0);
+    let _r: u8 = ibig_w(1, true, &wa) % p;
 });
